@@ -183,7 +183,11 @@ def run_contract(qualname, scenario_index, tier, seed, falsify_n, deadline=None)
                     out["exceptions"].append(ob.meta["detail"])
             if not any(k == "ok" for _, k, _, _ in results):
                 out["outside"] = "no path terminated normally"
-            # cover check (vacuity guard): the assumptions of every completed path must be satisfiable
+            # cover check (vacuity guard): a completed path whose assumptions turn out to be
+            # unsatisfiable was only explored because feasibility was undecided at a branch; its
+            # obligations hold vacuously and are dropped.  A contract without any satisfiable
+            # completed path is vacuous and is reported as an engine limit, never as success.
+            vacuous, live = [], 0
             for tr, kind, val, pc in results:
                 if kind != "ok":
                     continue
@@ -194,7 +198,14 @@ def run_contract(qualname, scenario_index, tier, seed, falsify_n, deadline=None)
                 for a in pc:
                     sv.add(a)
                 if sv.check() == z3.unsat:
-                    out["outside"] = "vacuous contract: the path condition " + "".join("T" if b else "F" for b in tr) + " is unsatisfiable"
+                    vacuous.append(list(tr))
+                else:
+                    live += 1
+            if vacuous:
+                obls = [ob for ob in obls if ob.meta.get("path") not in vacuous]
+                out["vacuous_paths_dropped"] = len(vacuous)
+            if any(k == "ok" for _, k, _, _ in results) and live == 0:
+                out["outside"] = "vacuous contract: no completed path has satisfiable assumptions"
             # frame obligation (C17): on no feasible path does the code write into a buffer owned by
             # the caller (ghost ownership flag of the input arrays, propagated through views)
             lemmas = set()
